@@ -361,7 +361,7 @@ where
     let mon = "precision";
     let n_chains = *g.choose(&[1usize, 2, 3, 6, 7]);
     let dim = g.range(1, 3);
-    let n_collect = *g.choose(&[4usize, 5, 16]);
+    let n_collect = *g.choose(&[4usize, 5, 16, 63, 64, 65, 128]);
     let n_discard = *g.choose(&[0usize, 1, 7]);
     let seed = g.next_u64() >> 1;
     let nuts = g.bool();
